@@ -184,7 +184,7 @@ func genC20(t *rapid.T) C20Case {
 			ws[p] = strings.ToUpper(ws[p])
 		case 4:
 			p := rapid.IntRange(0, 11).Draw(t, "p")
-			ws[p] = ws[p] + rapid.SampledFrom([]string{"x", "s", "-", ".", ",", "1"}).Draw(t, "suffix")
+			ws[p] = ws[p] + rapid.SampledFrom([]string{"x", "s", "-", ".", ",", "1", "ed", "ing", "\x00", "\x00\x00\x00", "\x00\x00\x00\x00\x00", "\u00a0", "\u200b"}).Draw(t, "suffix")
 		case 5:
 			p := rapid.IntRange(0, 11).Draw(t, "p")
 			ws[p] = rapid.StringMatching(`[a-z]{1,9}`).Draw(t, "nonword")
